@@ -293,6 +293,31 @@ func (fa *flowAn) paramFlow(f *ssa.Function, p ssa.Value) (retained, aliasRet bo
 					}
 					continue
 				}
+				// an element or field of a local aggregate (var pair = [2][]V{a, b}): what is
+				// loaded from the aggregate again aliases
+				if root := localAggregate(x.Addr); root != nil {
+					var follow func(v ssa.Value)
+					follow = func(v ssa.Value) {
+						if rs := v.Referrers(); rs != nil {
+							for _, r := range *rs {
+								switch y := r.(type) {
+								case *ssa.IndexAddr:
+									follow(y)
+								case *ssa.FieldAddr:
+									follow(y)
+								case *ssa.UnOp:
+									if y.Op == token.MUL {
+										work = append(work, y)
+									}
+								case *ssa.Slice:
+									work = append(work, y)
+								}
+							}
+						}
+					}
+					follow(root)
+					continue
+				}
 				retained, why = true, "stored into "+x.Addr.String()+" at "+fa.pos(x.Pos())
 			case *ssa.MapUpdate:
 				if x.Value == v || x.Key == v {
@@ -718,4 +743,28 @@ func resultSharesWithReceiver(fa *flowAn, f *ssa.Function) string {
 		}
 	}
 	return ""
+}
+
+// localAggregate: addr is an element or field address inside a non-escaping local variable
+// (array or struct); returns that variable's Alloc.
+func localAggregate(addr ssa.Value) *ssa.Alloc {
+	for i := 0; i < 4; i++ {
+		switch x := addr.(type) {
+		case *ssa.IndexAddr:
+			addr = x.X
+		case *ssa.FieldAddr:
+			addr = x.X
+		case *ssa.Alloc:
+			if !x.Heap {
+				switch x.Type().(*types.Pointer).Elem().Underlying().(type) {
+				case *types.Array, *types.Struct:
+					return x
+				}
+			}
+			return nil
+		default:
+			return nil
+		}
+	}
+	return nil
 }
